@@ -437,6 +437,9 @@ def replay_inproc(mod, path):
 
 
 def main(mod, argv):
+    # the check runs as the software's users do: without the super-user's permission override (see vlib/unpriv.py)
+    from . import unpriv
+    unpriv.drop()
     tier = os.environ.get("VERIF_TIER", "quick")
     seed = int(os.environ.get("VERIF_SEED", "1") or "1")
     shard = None
